@@ -219,7 +219,7 @@ func thorough(c *Ctx, repo, verif string, extra map[string]interface{}) int {
 		}
 	}
 	results := make([]mres, len(mine))
-	sem := make(chan struct{}, 8)
+	sem := make(chan struct{}, 12)
 	var wg sync.WaitGroup
 	for i, m := range mine {
 		wg.Add(1)
